@@ -12,7 +12,8 @@ whether everything observed equals the run over the contiguous reader with the d
 
 `cifrag [size=] b: [s:]` — `CheckIntegrity` in the same setting.
 
-`--spec`: the answer of the contiguous run (what C08 demands). `--kf`: the stream ends inside a request (KF-C08-1).
+`--spec`: the answer of the contiguous run (what C08 demands). `--prop` (failing readers): a failure of the reader that
+`ReadN` hands to the decoder must be the error of the run. `--kf`: the stream ends inside a request (KF-C08-1).
 -/
 namespace Drv.DFrag
 open Drv Fit.ReadBuffer Fit.DecProg
@@ -135,10 +136,7 @@ def hDfrag : Handler := fun r =>
     | .kf =>
       if vApplies a then
         (if truncated (decodeLoop a.chk (a.bytes.length + 1) true []) (bytesOf a.schedule) then "KF-C08-1" else "-")
-      else
-        match firstReaderErr (decodeLoop a.chk (a.bytes.length + 1) true []) (RB.fresh a.schedule a.bufSize), runOn a a.schedule a.bufSize with
-        | some _, .done o => if o.status.isNone then "KF-C08-2" else "-"
-        | _, _ => "-"
+      else "-"
     | .prop =>
       -- C08, second sentence: a failure of the reader that `ReadN` hands to the decoder must come back as the error of the run
       if vApplies a then "n/a" else
